@@ -184,7 +184,7 @@ int main(int argc, char **argv) {
         long k = 0;
         for (int st = 0; st < 3 && ok; st++)
             for (int input = -128; input <= 255 && ok; input++) {
-                std::vector<int64_t> els = st == 0 ? std::vector<int64_t>{0, 1, 5, 31, 300} : std::vector<int64_t>{0, tm[st] - 1, tm[st], tm[st] + 1, 10 * (int64_t)tm[st]};
+                std::vector<int64_t> els = st == 0 ? std::vector<int64_t>{0, 1, 5, 31, 300} : std::vector<int64_t>{0, tm[st] - 1, tm[st], tm[st] + 1, 10 * (int64_t)tm[st], 32767, 32768, 65536 + 2, 2147483648LL, 4294967296LL + 3};
                 for (int64_t el : els) {
                     if (k++ % a.nshards != a.shard) continue;
                     Case c; c.cfg = {0, st, input, std::max<int64_t>(0, el)};
